@@ -216,6 +216,10 @@ theorem Sim.single (v : Seq) : Sim id (IM.single v) (SM.single v) := by
   | [.bool _] => exact Sim.thr _ _
   | [.dec _] => exact Sim.thr _ _
   | [.dbl _] => exact Sim.thr _ _
+  | [.str _] => exact Sim.thr _ _
+  | [.nan] => exact Sim.thr _ _
+  | [.inf _] => exact Sim.thr _ _
+  | [.negz] => exact Sim.thr _ _
   | x :: y :: r => cases x <;> exact Sim.thr _ _
 
 theorem Sim.alloc (o : FObj) : Sim id (IM.alloc o) (SM.alloc (eraseObj o)) := by
